@@ -23,6 +23,9 @@ package service
 //@ property C20 roots (*Client).Connect, (*Client).ConnectTLS, getConnackMessage, (*service).subscribe, (*service).subscribe$1, (*service).unsubscribe, (*service).unsubscribe$1, (*service).ping, (*service).processPublish, (*service).processIncoming, (*service).processAcked, (*service).onPublish, (*github.com/mdzio/go-mqtt/message.ConnackMessage).Decode
 //@ property C19 roots (*service).processIncoming, (*service).receiver, (timeoutReader).Read, (*service).stop, (*github.com/mdzio/go-mqtt/sessions.Session).Update
 //@ property C01 roots (*service).onPublish, (*Server).Publish, (*service).processUnsubscribe, (*github.com/mdzio/go-mqtt/topics.MemTopics).Subscribe, (*github.com/mdzio/go-mqtt/topics.MemTopics).Unsubscribe, (*github.com/mdzio/go-mqtt/topics.MemTopics).Subscribers, (*github.com/mdzio/go-mqtt/topics.snode).sinsert, (*github.com/mdzio/go-mqtt/topics.snode).sremove, (*github.com/mdzio/go-mqtt/topics.snode).smatch, (*github.com/mdzio/go-mqtt/topics.snode).matchQos, github.com/mdzio/go-mqtt/topics.NewMemProvider, github.com/mdzio/go-mqtt/topics.newSNode
+// Only the keep-alive reader and the connection set-up may arm the socket's read deadline: every function that calls
+// SetReadDeadline must be under contract (a new caller without one is a binding failure of C19).
+//@ property C19 callers net.Conn.SetReadDeadline, netReader.SetReadDeadline
 //@ property C17 roots (*service).writeMessage, (*stat).increment, (*buffer).WriteTo, (*buffer).ReadPeek, (*buffer).ReadCommit, (*buffer).ReadFrom
 //@ property C17 callers (*buffer).Write, (*buffer).WriteWait, (*buffer).WriteCommit
 //@ property C15 roots (*buffer).Close, (*buffer).Read, (*buffer).ReadPeek, (*buffer).ReadWait, (*buffer).ReadCommit, (*buffer).Write, (*buffer).WriteWait, (*buffer).WriteCommit, (*buffer).waitForWriteSpace, (*buffer).ReadFrom, (*buffer).WriteTo
@@ -141,6 +144,7 @@ func vspecCovered(x int64, start int64, c int64, size int64) bool {
 //@   rely modifies bf.cseq.cursor, bf.done
 //@   rely ensures bf.cseq.cursor >= old(bf.cseq.cursor) && bf.cseq.cursor <= bf.pseq.cursor && (old(bf.done) == 1 ==> bf.done == 1)
 //@   atcall (*sync.Cond).Wait requires[C15:fresh-predicate] gfield(bf.cseq, "readAt") > gfield(bf.pcond.L, "lockedAt")
+//@   atcall (*sync.Cond).Wait requires[C15:waits-only-without-space] bf.pseq.cursor+int64(n)-bf.size > cpos
 //@   atcall (*sync.Cond).Wait requires[C15:not-closed] gfield(bf, "doneAt") > gfield(bf.pcond.L, "lockedAt") && gfield(bf, "doneSeen") == 0
 //@   loop 1 invariant[C15:progress] int64(n) <= bf.size
 //@   loop 1 invariant[C15:fresh-predicate] gfield(bf.cseq, "readAt") > gfield(bf.pcond.L, "lockedAt") && gfield(0, "clock") >= gfield(bf.pcond.L, "lockedAt") && gfield(0, "clock") >= old(gfield(0, "clock"))
@@ -192,7 +196,8 @@ func vspecCovered(x int64, start int64, c int64, size int64) bool {
 //@   ensures[C14:commit] err == nil ==> cnt == n && bf.pseq.cursor == old(bf.pseq.cursor)+int64(n)
 //@   ensures[C14:none] err != nil ==> cnt == 0 && bf.pseq.cursor == old(bf.pseq.cursor)
 //@   ensures[C15:signal] err == nil ==> gfield(bf.ccond, "bcast") > old(gfield(bf.ccond, "bcast"))
-//@   modifies bf.pseq.gate, bf.pwait, bf.pseq.cursor, gfield(bf.ccond, "bcast"), heap("GF.clock"), heap("GF.lockedAt"), heap("GF.readAt"), heap("GF.doneAt"), heap("GF.doneSeen")
+//@   ensures[ghostdef-cfail] gfield(0, "cfail") == old(gfield(0, "cfail")) + ite(err != nil, 1, 0)
+//@   modifies gfield(0, "cfail"), bf.pseq.gate, bf.pwait, bf.pseq.cursor, gfield(bf.ccond, "bcast"), heap("GF.clock"), heap("GF.lockedAt"), heap("GF.readAt"), heap("GF.doneAt"), heap("GF.doneSeen")
 
 // Write: copy p into the ring at the producer cursor (wrapping) and publish it. Nothing between the gate
 // (a lower bound of the consumer cursor) and the old producer cursor is overwritten.
@@ -235,6 +240,7 @@ func vspecCovered(x int64, start int64, c int64, size int64) bool {
 //@   rely ensures bf.pseq.cursor >= old(bf.pseq.cursor) && bf.pseq.cursor <= bf.pseq.gate+bf.size && bf.pseq.gate >= old(bf.pseq.gate) && bf.pseq.gate <= bf.cseq.cursor && (old(bf.done) == 1 ==> bf.done == 1)
 //@   rely ensures vdefStream(bf)
 //@   atcall (*sync.Cond).Wait requires[C15:fresh-predicate] gfield(bf.pseq, "readAt") > gfield(bf.ccond.L, "lockedAt")
+//@   atcall (*sync.Cond).Wait requires[C15:waits-only-without-data] bf.cseq.cursor+int64(n) > ppos
 //@   atcall (*sync.Cond).Wait requires[C15:not-closed] gfield(bf, "doneAt") > gfield(bf.ccond.L, "lockedAt") && gfield(bf, "doneSeen") == 0
 //@   loop 1 invariant heldonly(bf.ccond.L) && vdefRing(bf) && vdefStream(bf) && bf.cseq.cursor == old(bf.cseq.cursor) && ppos <= bf.pseq.cursor && 0 <= n && int64(n) <= bf.size
 //@   loop 1 invariant[C15:fresh-predicate] gfield(bf.pseq, "readAt") > gfield(bf.ccond.L, "lockedAt") && gfield(0, "clock") >= gfield(bf.ccond.L, "lockedAt")
@@ -256,6 +262,7 @@ func vspecCovered(x int64, start int64, c int64, size int64) bool {
 //@   rely ensures bf.pseq.cursor >= old(bf.pseq.cursor) && bf.pseq.cursor <= bf.pseq.gate+bf.size && bf.pseq.gate >= old(bf.pseq.gate) && bf.pseq.gate <= bf.cseq.cursor && (old(bf.done) == 1 ==> bf.done == 1)
 //@   rely ensures vdefStream(bf)
 //@   atcall (*sync.Cond).Wait requires[C15:fresh-predicate] gfield(bf.pseq, "readAt") > gfield(bf.ccond.L, "lockedAt")
+//@   atcall (*sync.Cond).Wait requires[C15:waits-only-without-data] bf.cseq.cursor >= ppos
 //@   atcall (*sync.Cond).Wait requires[C15:not-closed] gfield(bf, "doneAt") > gfield(bf.ccond.L, "lockedAt") && gfield(bf, "doneSeen") == 0
 //@   loop 1 invariant heldonly(bf.ccond.L) && vdefRing(bf) && vdefStream(bf) && bf.cseq.cursor == old(bf.cseq.cursor) && ppos <= bf.pseq.cursor && 0 <= n && int64(n) <= bf.size
 //@   loop 1 invariant[C15:fresh-predicate] gfield(bf.pseq, "readAt") > gfield(bf.ccond.L, "lockedAt") && gfield(0, "clock") >= gfield(bf.ccond.L, "lockedAt")
@@ -283,6 +290,7 @@ func vspecCovered(x int64, start int64, c int64, size int64) bool {
 //@   rely ensures bf.pseq.cursor >= old(bf.pseq.cursor) && bf.pseq.cursor <= bf.pseq.gate+bf.size && bf.pseq.gate >= old(bf.pseq.gate) && bf.pseq.gate <= bf.cseq.cursor && (old(bf.done) == 1 ==> bf.done == 1)
 //@   rely ensures vdefStream(bf)
 //@   atcall (*sync.Cond).Wait requires[C15:fresh-predicate] gfield(bf.pseq, "readAt") > gfield(bf.ccond.L, "lockedAt")
+//@   atcall (*sync.Cond).Wait requires[C15:waits-only-without-data] bf.cseq.cursor >= ppos
 //@   atcall (*sync.Cond).Wait requires[C15:not-closed] gfield(bf, "doneAt") > gfield(bf.ccond.L, "lockedAt") && gfield(bf, "doneSeen") == 0
 //@   loop 1 invariant vdefRing(bf) && vdefStream(bf) && bf.cseq.cursor == old(bf.cseq.cursor) && heldsame()
 //@   loop 1 invariant[frame] unchangedoutside(bf.buf, 0, len(bf.buf)) && unchanged(p) && gfield(bf.pcond, "bcast") == old(gfield(bf.pcond, "bcast"))
@@ -305,7 +313,8 @@ func vspecCovered(x int64, start int64, c int64, size int64) bool {
 //@   flag args self, p
 //@   flag yield
 //@   ensures 0 <= n && n <= len(p)
-//@   modifies elems(p)
+//@   ensures[ghostdef-nread] gfield(0, "nread") == old(gfield(0, "nread"))+n
+//@   modifies elems(p), gfield(0, "nread")
 //@ iface io.Writer.Write
 //@   trusted
 //@   results n, err
@@ -324,10 +333,12 @@ func vspecCovered(x int64, start int64, c int64, size int64) bool {
 //@   rely ensures bf.cseq.cursor >= old(bf.cseq.cursor) && bf.cseq.cursor <= bf.pseq.cursor && (old(bf.done) == 1 ==> bf.done == 1)
 //@   atcall io.Reader.Read requires[C14:granted-region] arr(p) == arr(bf.buf) && off(p) == off(bf.buf)+int(bf.pseq.cursor&bf.mask) && len(p) <= 8192 && int(bf.pseq.cursor&bf.mask)+len(p) <= int(bf.size) && bf.pseq.cursor+int64(len(p))-bf.size <= bf.pseq.gate
 //@   loop 1 invariant vdefRing(bf) && heldsame() && 0 <= total && total == bf.pseq.cursor-old(bf.pseq.cursor)
+//@   loop 1 invariant[C09:no-input-dropped] int64(gfield(0, "nread")-old(gfield(0, "nread"))) == bf.pseq.cursor-old(bf.pseq.cursor) && gfield(0, "cfail") >= old(gfield(0, "cfail"))
 //@   loop 1 invariant[frame] unchangedoutside(bf.buf, 0, len(bf.buf)) && preservedexcept(bf.buf)
 //@   ensures[C14:ring] vdefRing(bf) && bf.pseq.cursor >= old(bf.pseq.cursor)
 //@   ensures[C15:close] bf.done == 1
-//@   modifies bf.pseq.gate, bf.pwait, bf.pseq.cursor, bf.done, elems(bf.buf), heap("GF.bcast"), heap("GF.clock"), heap("GF.lockedAt"), heap("GF.readAt"), heap("GF.doneAt"), heap("GF.doneSeen")
+//@   ensures[C09:no-input-dropped] int64(gfield(0, "nread")-old(gfield(0, "nread"))) == bf.pseq.cursor-old(bf.pseq.cursor) || gfield(0, "cfail") > old(gfield(0, "cfail"))
+//@   modifies heap("GF.nread"), heap("GF.cfail"), bf.pseq.gate, bf.pwait, bf.pseq.cursor, bf.done, elems(bf.buf), heap("GF.bcast"), heap("GF.clock"), heap("GF.lockedAt"), heap("GF.readAt"), heap("GF.doneAt"), heap("GF.doneSeen")
 
 // WriteTo (consumer): every block handed to the writer is the next bytes of the stream, and exactly what the
 // writer accepted is consumed.
@@ -382,6 +393,7 @@ func vspecCovered(x int64, start int64, c int64, size int64) bool {
 //@   atcall (*buffer).Write requires[C17:write-what-was-encoded] len(p) == gfield(0, "encn") && arr(p) == gfield(0, "encarr") && off(p) == gfield(0, "encoff")
 //@   ensures[inv] vdefOut(svc)
 //@   ensures[C17:none] svc.out == nil ==> err != nil
+//@   ensures[outtmp-alloc] arr(svc.outtmp) == old(arr(svc.outtmp)) || fresh(arr(svc.outtmp))
 //@   ensures[C17:count] err == nil ==> m == gfield(0, "encn")
 //@   ensures[ghostdef-log] gfield(svc, "n3") == old(gfield(svc, "n3")) + ite(err == nil && old(vdefWT(msg)) == 3, 1, 0) && gfield(svc, "id3") == ite(err == nil && old(vdefWT(msg)) == 3, old(vdefWID(msg)), old(gfield(svc, "id3")))
 //@   ensures[ghostdef-log] gfield(svc, "n4") == old(gfield(svc, "n4")) + ite(err == nil && old(vdefWT(msg)) == 4, 1, 0) && gfield(svc, "id4") == ite(err == nil && old(vdefWT(msg)) == 4, old(vdefWID(msg)), old(gfield(svc, "id4")))
@@ -395,7 +407,7 @@ func vspecCovered(x int64, start int64, c int64, size int64) bool {
 //@   ensures[ghostdef-log] gfield(svc, "n12") == old(gfield(svc, "n12")) + ite(err == nil && old(vdefWT(msg)) == 12, 1, 0) && gfield(svc, "id12") == ite(err == nil && old(vdefWT(msg)) == 12, old(vdefWID(msg)), old(gfield(svc, "id12")))
 //@   ensures[ghostdef-log] gfield(svc, "n13") == old(gfield(svc, "n13")) + ite(err == nil && old(vdefWT(msg)) == 13, 1, 0) && gfield(svc, "id13") == ite(err == nil && old(vdefWT(msg)) == 13, old(vdefWID(msg)), old(gfield(svc, "id13")))
 //@   ensures[ghostdef-log] gfield(svc, "wfail") == old(gfield(svc, "wfail")) + ite(err != nil, 1, 0)
-//@   modifies svc.out.pseq.gate, svc.out.pwait, svc.out.pseq.cursor, elems(svc.out.buf), gfield(svc.out.ccond, "bcast"), svc.outtmp, elems(svc.outtmp), fields(addr(svc.outStat)), ifaceval(msg, *message.header).remlen, ifaceval(msg, *message.header).dirty, ifaceval(msg, *message.header).packetID, message.gPacketID, heap("GF.encn"), heap("GF.encarr"), heap("GF.encoff"), heap("GF.encAt"), heap("GF.clock"), heap("GF.lockedAt"), gfield(addr(svc.wmu), "mlockedAt"), heap("GF.readAt"), heap("GF.doneAt"), heap("GF.doneSeen"), gfield(svc, "n3"), gfield(svc, "id3"), gfield(svc, "n4"), gfield(svc, "id4"), gfield(svc, "n5"), gfield(svc, "id5"), gfield(svc, "n6"), gfield(svc, "id6"), gfield(svc, "n7"), gfield(svc, "id7"), gfield(svc, "n8"), gfield(svc, "id8"), gfield(svc, "n9"), gfield(svc, "id9"), gfield(svc, "n10"), gfield(svc, "id10"), gfield(svc, "n11"), gfield(svc, "id11"), gfield(svc, "n12"), gfield(svc, "id12"), gfield(svc, "n13"), gfield(svc, "id13"), gfield(svc, "wfail")
+//@   modifies heap("GF.cfail"), svc.out.pseq.gate, svc.out.pwait, svc.out.pseq.cursor, elems(svc.out.buf), gfield(svc.out.ccond, "bcast"), svc.outtmp, elems(svc.outtmp), fields(addr(svc.outStat)), ifaceval(msg, *message.header).remlen, ifaceval(msg, *message.header).dirty, ifaceval(msg, *message.header).packetID, message.gPacketID, heap("GF.encn"), heap("GF.encarr"), heap("GF.encoff"), heap("GF.encAt"), heap("GF.clock"), heap("GF.lockedAt"), gfield(addr(svc.wmu), "mlockedAt"), heap("GF.readAt"), heap("GF.doneAt"), heap("GF.doneSeen"), gfield(svc, "n3"), gfield(svc, "id3"), gfield(svc, "n4"), gfield(svc, "id4"), gfield(svc, "n5"), gfield(svc, "id5"), gfield(svc, "n6"), gfield(svc, "id6"), gfield(svc, "n7"), gfield(svc, "id7"), gfield(svc, "n8"), gfield(svc, "id8"), gfield(svc, "n9"), gfield(svc, "id9"), gfield(svc, "n10"), gfield(svc, "id10"), gfield(svc, "n11"), gfield(svc, "id11"), gfield(svc, "n12"), gfield(svc, "id12"), gfield(svc, "n13"), gfield(svc, "id13"), gfield(svc, "wfail")
 
 // ================================================================ protocol handlers (service/process.go)
 // Assumed: the package-level logger is initialised (logging.Get never returns nil) and never reassigned.
@@ -432,7 +444,7 @@ func vspecCovered(x int64, start int64, c int64, size int64) bool {
 //@ modset Callback allfields(sessions.Ackqueue), allfields(sessions.AckMsg), allelems(sessions.AckMsg), allmaps(map[uint16]int64), allelems(byte), allfields(stat), heap("F.service.service.outtmp"), message.gPacketID, heap("GF.n3"), heap("GF.id3"), heap("GF.wfail"), heap("GF.ncb"), heap("GF.nlog"), heap("GF.nwait"), heap("GF.lastwait"), heap("GF.clock"), heap("GF.lockedAt"), heap("GF.mlockedAt"), heap("GF.readAt"), heap("GF.doneAt"), heap("GF.doneSeen"), heap("GF.bcast"), heap("GF.encn"), heap("GF.encarr"), heap("GF.encoff"), heap("GF.encAt"), heap("F.service.buffer.pwait"), heap("F.service.buffer.cwait"), allfields(sequence)
 
 // What writeMessage changes besides the ghost log (ring cursors and bytes, scratch buffer, statistics, ghost clock).
-//@ modset Out allfields(sequence), allfields(buffer), allelems(byte), allfields(stat), heap("F.service.service.outtmp"), message.gPacketID, heap("GF.wfail"), heap("GF.clock"), heap("GF.lockedAt"), heap("GF.mlockedAt"), heap("GF.readAt"), heap("GF.doneAt"), heap("GF.doneSeen"), heap("GF.bcast"), heap("GF.encn"), heap("GF.encarr"), heap("GF.encoff"), heap("GF.encAt")
+//@ modset Out heap("GF.cfail"), allfields(sequence), allfields(buffer), allelems(byte), allfields(stat), heap("F.service.service.outtmp"), message.gPacketID, heap("GF.wfail"), heap("GF.clock"), heap("GF.lockedAt"), heap("GF.mlockedAt"), heap("GF.readAt"), heap("GF.doneAt"), heap("GF.doneSeen"), heap("GF.bcast"), heap("GF.encn"), heap("GF.encarr"), heap("GF.encoff"), heap("GF.encAt")
 
 // Ack queues.
 //@ modset AckQ allfields(sessions.Ackqueue), allfields(sessions.AckMsg), allelems(sessions.AckMsg), allmaps(map[uint16]int64), heap("GF.nwait"), heap("GF.lastwait"), heap("GF.clock"), heap("GF.mlockedAt")
@@ -443,7 +455,7 @@ func vspecCovered(x int64, start int64, c int64, size int64) bool {
 //@ modset Log heap("GF.n3"), heap("GF.id3"), heap("GF.n4"), heap("GF.id4"), heap("GF.n5"), heap("GF.id5"), heap("GF.n6"), heap("GF.id6"), heap("GF.n7"), heap("GF.id7"), heap("GF.n8"), heap("GF.id8"), heap("GF.n9"), heap("GF.id9"), heap("GF.n10"), heap("GF.id10"), heap("GF.n11"), heap("GF.id11"), heap("GF.n12"), heap("GF.id12"), heap("GF.n13"), heap("GF.id13"), heap("GF.wfail")
 
 // The topic store (what Subscribe/Unsubscribe/Retain may change).
-//@ modset TopicStore allfields(topics.rnode), allfields(topics.snode), allfields(topics.MemTopics), allmaps(map[string]*topics.rnode), allmaps(map[string]*topics.snode), message.gPacketID, heap("GF.encn"), heap("GF.encarr"), heap("GF.encoff"), heap("GF.encAt"), heap("GF.nretain"), heap("GF.lastretain")
+//@ modset TopicStore heap("GF.nlookup"), allfields(topics.rnode), allfields(topics.snode), allfields(topics.MemTopics), allmaps(map[string]*topics.rnode), allmaps(map[string]*topics.snode), message.gPacketID, heap("GF.encn"), heap("GF.encarr"), heap("GF.encoff"), heap("GF.encAt"), heap("GF.nretain"), heap("GF.lastretain")
 
 //@ extern functype github.com/mdzio/go-mqtt/service.OnPublishFunc
 //@   flag yield
@@ -470,6 +482,7 @@ func vspecCovered(x int64, start int64, c int64, size int64) bool {
 //@   ensures[C01:fanout] err == nil ==> gfield(0, "ncb") == old(gfield(0, "ncb"))+len(p.subs)
 //@   ensures[C08:retained-iff-flag] gfield(0, "nretain") == old(gfield(0, "nretain")) + ite(old(msg.mtypeflags[0])%2 == 1, 1, 0) && (old(msg.mtypeflags[0])%2 == 1 ==> gfield(0, "lastretain") == msg)
 //@   ensures[C01,C05:no-abort] err != nil ==> gfield(0, "ncb") == old(gfield(0, "ncb"))
+//@   ensures[C01:always-looked-up] gfield(0, "nlookup") == old(gfield(0, "nlookup"))+1
 //@   modifies modset(Callback), msg.remlen, msg.dirty, msg.packetID, p.subs, p.qoss, capelems(p.subs), modset(TopicStore), gfield(p, "ndlv"), gfield(p, "lastdlv")
 
 
@@ -587,6 +600,7 @@ func vspecCovered(x int64, start int64, c int64, size int64) bool {
 //@   ensures[frame-bytes] onComplete == nil && svc.out != nil ==> preservedexcept(svc.out.buf, svc.outtmp)
 //@   ensures[inv-queues] onComplete == nil ==> svc.sess == old(svc.sess) && vdefQ2(svc.sess)
 //@   ensures[inv-ring] onComplete == nil ==> svc.out == old(svc.out) && (svc.out != nil ==> arr(svc.out.buf) == old(arr(svc.out.buf)))
+//@   ensures[outtmp-alloc] onComplete == nil ==> arr(svc.outtmp) == old(arr(svc.outtmp)) || fresh(arr(svc.outtmp))
 //@   ensures[inv] vdefOut(svc)
 //@   modifies modset(Callback), modset(Out), modset(AckQ), heap("GF.ncomp"), msg.remlen, msg.dirty, msg.packetID, gfield(svc, "n3"), gfield(svc, "id3")
 
@@ -613,34 +627,32 @@ func vspecCovered(x int64, start int64, c int64, size int64) bool {
 // QoS exceeds the granted QoS is replaced by a fresh clone with the granted QoS - the stored message is never
 // altered - and all are sent after the SUBACK.
 //@ func (*service).processSubscribe
-//@   flag bodyhash 23643000387f
-//@   trusted
 //@   results err
 //@   requires vdefProc(p) && msg != nil && len(msg.mtypeflags) == 1 && len(msg.topics) == len(msg.qos) && len(msg.topics) <= 30000 && !held(addr(p.sess.mu)) && p.sess.topics != nil && vdefQ2(p.sess)
 //@   rely modifies p.out.pseq.cursor, p.out.pseq.gate, p.out.cseq.cursor, p.out.done, p.out.pwait, elems(p.out.buf)
 //@   rely ensures vdefRing(p.out) && arr(p.outtmp) != arr(p.out.buf)
 //@   atcall (*github.com/mdzio/go-mqtt/topics.Manager).Subscribe requires[C07:asked] sameslice(topic, msg.topics[rangeindex+1]) && qos == msg.qos[rangeindex+1] && typeis(subscriber, *OnPublishFunc) && ifaceval(subscriber, *OnPublishFunc) == addr(p.onpub)
-//@   atcall (*github.com/mdzio/go-mqtt/topics.Manager).Retained assumes forall(old(len(p.rmsgs)), len(p.rmsgs), func(k int) bool { return vdefRMsg(p, p.rmsgs[k]) && vdefRSrc(p.rmsgs[k]) && arr(p.rmsgs[k].mtypeflags) != arr(retcodes) })
+//@   atcall (*github.com/mdzio/go-mqtt/topics.Manager).Retained assumes forall(old(len(p.rmsgs)), len(p.rmsgs), func(k int) bool { return vdefRMsg(p, p.rmsgs[k]) && vdefRSrc(p.rmsgs[k]) && arr(p.rmsgs[k].mtypeflags) != arr(retcodes) && live(p.rmsgs[k]) && live(arr(p.rmsgs[k].mtypeflags)) })
 //@   atcall (*service).writeMessage requires[C07:order] gfield(0, "nsub") == old(gfield(0, "nsub"))+len(msg.topics)
 //@   atcall (*service).writeMessage requires[C07:codes] typeis(callee_msg, *message.SubackMessage) && len(ifaceval(callee_msg, *message.SubackMessage).returnCodes) == len(topics) && forall(0, len(topics), func(k int) bool { return int(ifaceval(callee_msg, *message.SubackMessage).returnCodes[k]) == gfield(old(gfield(0, "nsub"))+k, "subres") })
 //@   atcall (*github.com/mdzio/go-mqtt/message.PublishMessage).SetQoS requires[C08:stored-not-altered] fresh(m) && fresh(arr(m.mtypeflags))
 //@   atcall (*github.com/mdzio/go-mqtt/message.PublishMessage).SetQoS requires[C08:granted-qos] v == rqos
 //@   loop 1 invariant vdefPSState(p, msg) && 0 <= rangeindex+1 && rangeindex < len(topics) && sameslice(topics, msg.topics) && sameslice(qos, msg.qos)
-//@   loop 1 invariant[log] gfield(0, "nsub") == old(gfield(0, "nsub"))+rangeindex+1 && len(retcodes) == rangeindex+1 && (cap(retcodes) == 0 || fresh(arr(retcodes))) && live(arr(retcodes))
+//@   loop 1 invariant[log] gfield(0, "nlog") >= old(gfield(0, "nlog")) && gfield(0, "nsub") == old(gfield(0, "nsub"))+rangeindex+1 && len(retcodes) == rangeindex+1 && (cap(retcodes) == 0 || fresh(arr(retcodes))) && live(arr(retcodes))
 //@   loop 1 invariant[sep] (cap(retcodes) == 0 || (arr(retcodes) != arr(resp.mtypeflags) && arr(retcodes) != arr(resp.packetID))) && forall(0, len(p.rmsgs), func(k int) bool { return cap(retcodes) == 0 || arr(p.rmsgs[k].mtypeflags) != arr(retcodes) })
 //@   loop 1 invariant[codes] forall(0, rangeindex+1, func(k int) bool { return int(retcodes[k]) == gfield(old(gfield(0, "nsub"))+k, "subres") && message.vspecRetCodeOK(retcodes[k]) })
 //@   loop 1 invariant[resp] vdefPSResp(resp, msg)
 //@   loop 1 invariant[rmsgs] forall(0, len(p.rmsgs), func(k int) bool { return vdefRMsg(p, p.rmsgs[k]) && live(p.rmsgs[k]) && live(arr(p.rmsgs[k].mtypeflags)) })
 //@   loop 2 invariant vdefPSState(p, msg) && -1 <= rangeindex && rangeindex < len(nrmsgs) && sameslice(nrmsgs, p.rmsgs[rlen:]) && 0 <= rlen && rlen <= len(p.rmsgs) && rqos <= 2 && 0 <= i && i < len(topics) && sameslice(topics, msg.topics) && sameslice(qos, msg.qos)
-//@   loop 2 invariant[log] gfield(0, "nsub") == old(gfield(0, "nsub"))+i+1 && len(retcodes) == i+1 && fresh(arr(retcodes)) && live(arr(retcodes))
+//@   loop 2 invariant[log] gfield(0, "nlog") >= old(gfield(0, "nlog")) && gfield(0, "nsub") == old(gfield(0, "nsub"))+i+1 && len(retcodes) == i+1 && fresh(arr(retcodes)) && live(arr(retcodes))
 //@   loop 2 invariant[sep] arr(retcodes) != arr(resp.mtypeflags) && arr(retcodes) != arr(resp.packetID) && forall(0, len(p.rmsgs), func(k int) bool { return arr(p.rmsgs[k].mtypeflags) != arr(retcodes) })
 //@   loop 2 invariant[codes] forall(0, i+1, func(k int) bool { return int(retcodes[k]) == gfield(old(gfield(0, "nsub"))+k, "subres") && message.vspecRetCodeOK(retcodes[k]) })
 //@   loop 2 invariant[resp] vdefPSResp(resp, msg)
 //@   loop 2 invariant[rmsgs] forall(0, len(p.rmsgs), func(k int) bool { return vdefRMsg(p, p.rmsgs[k]) && live(p.rmsgs[k]) && live(arr(p.rmsgs[k].mtypeflags)) })
 //@   loop 2 invariant[todo] forall(rlen+rangeindex+1, len(p.rmsgs), func(k int) bool { return vdefRSrc(p.rmsgs[k]) })
-//@   loop 2 invariant[done] forall(rlen, rlen+rangeindex+1, func(k int) bool { return message.vspecQoSOf(p.rmsgs[k].mtypeflags[0]) <= rqos || gfield(0, "nlog") > old(gfield(0, "nlog")) })
+//@   loop 2 invariant[done] forall(0, rangeindex+1, func(k int) bool { return message.vspecQoSOf(nrmsgs[k].mtypeflags[0]) <= rqos || gfield(0, "nlog") > old(gfield(0, "nlog")) })
 //@   loop 3 invariant vdefProc(p) && heldsame() && gfield(p, "n9") == old(gfield(p, "n9"))+1 && gfield(p, "id9") == old(message.vspecPacketID(msg.packetID)) && vdefQ2(p.sess) && sameslice(rangeslice, p.rmsgs) && gfield(0, "nsub") == old(gfield(0, "nsub"))+len(msg.topics) && live(arr(p.out.buf)) && live(arr(p.outtmp))
-//@   loop 3 invariant[rmsgs] forall(0, len(p.rmsgs), func(k int) bool { return vdefRMsg(p, p.rmsgs[k]) })
+//@   loop 3 invariant[rmsgs] forall(0, len(p.rmsgs), func(k int) bool { return vdefRMsg(p, p.rmsgs[k]) && live(arr(p.rmsgs[k].mtypeflags)) })
 //@   ensures[C07:one] gfield(p, "n9") <= old(gfield(p, "n9"))+1 && (err == nil ==> gfield(p, "n9") == old(gfield(p, "n9"))+1 && gfield(p, "id9") == old(message.vspecPacketID(msg.packetID)))
 //@   ensures[C07:never-silent] gfield(p, "n9") == old(gfield(p, "n9"))+1 || gfield(p, "wfail") == old(gfield(p, "wfail"))+1
 //@   ensures[C07:all-asked] gfield(0, "nsub") == old(gfield(0, "nsub"))+len(msg.topics)
@@ -731,6 +743,8 @@ func vspecCovered(x int64, start int64, c int64, size int64) bool {
 //@   modifies topics.providers
 //@ extern (*github.com/mdzio/go-mqtt/sessions.Session).ID
 //@   pure
+//@   flag args s
+//@   ensures[assumed-functional] ref(result) == ufi("sessid", ref(s.Cmsg), arr(s.Cmsg.clientID), off(s.Cmsg.clientID), len(s.Cmsg.clientID))
 //@ extern (*github.com/mdzio/go-mqtt/sessions.Session).Topics
 //@   flag args s
 //@   ensures result2 == nil ==> len(result0) == len(result1)
@@ -774,10 +788,6 @@ func vspecCovered(x int64, start int64, c int64, size int64) bool {
 // Ghost: nconnack / ackcode / acksp - the CONNACK packets written straight to a connection, the return code and the
 // session-present flag of the last one; nauth / authok - calls of the authenticator and the outcome of the last one;
 // nstarted - services whose goroutines were started; nclosed - Close calls on a connection.
-//@ extern (*github.com/mdzio/go-mqtt/auth.Manager).Authenticate
-//@   flag args m, id, cred
-//@   ensures[ghostdef-auth] gfield(0, "nauth") == old(gfield(0, "nauth"))+1 && (gfield(0, "authok") == 1) == (result == nil) && (gfield(0, "authok") == 0 || gfield(0, "authok") == 1)
-//@   modifies gfield(0, "nauth"), gfield(0, "authok")
 //@ iface net.Conn.RemoteAddr
 //@   trusted
 //@   pure
@@ -830,8 +840,9 @@ func vspecCovered(x int64, start int64, c int64, size int64) bool {
 //@ func (*Server).handleConnection
 //@   results svc, err
 //@   flag noframe
-//@   requires svr.authMgr != nil && svr.sessMgr != nil && svr.sessMgr.p != nil && heldnone() && 0 <= svr.ConnectTimeout && svr.ConnectTimeout <= 1000000
+//@   requires svr.authMgr != nil && svr.authMgr.p != nil && svr.sessMgr != nil && svr.sessMgr.p != nil && heldnone() && 0 <= svr.ConnectTimeout && svr.ConnectTimeout <= 1000000
 //@   requires svr.topicsMgr != nil && svr.topicsMgr.p != nil && svr.BufferSize <= 549755813888
+//@   atcall (*github.com/mdzio/go-mqtt/message.ConnectMessage).SetKeepAlive requires[C19:negotiated-keepalive] m.keepAlive == 0 && v == minKeepAlive
 //@   atcall (*service).start assumes err == nil
 //@   ensures[C11:decode-code] gfield(0, "nauth") == old(gfield(0, "nauth")) && typeis(err, message.ConnackCode) ==> gfield(c, "nconnack") == old(gfield(c, "nconnack"))+1 && gfield(c, "ackcode") == int(ifaceval(err, message.ConnackCode)) && gfield(c, "acksp") == 0
 //@   ensures[C11:decode-garbage] gfield(0, "nauth") == old(gfield(0, "nauth")) && err != nil && !typeis(err, message.ConnackCode) ==> gfield(c, "nconnack") == old(gfield(c, "nconnack"))
@@ -969,9 +980,15 @@ func vspecCovered(x int64, start int64, c int64, size int64) bool {
 //@   ensures err != nil ==> !typeis(err, message.ConnackCode)
 //@   ensures[ghostdef-dial] gfield(0, "ndial") == old(gfield(0, "ndial")) + ite(err == nil, 1, 0) && (err == nil ==> gfield(0, "lastdial") == ref(c) && gfield(c, "nclosed") == 0)
 //@   modifies gfield(0, "ndial"), gfield(0, "lastdial")
+// Ghost: nreg counts provider registrations made by this goroutine; regname / regprov are the name and the provider
+// of the last one (C20: every client connection gets a topic store of its own, created for it and registered under
+// the name its manager is then looked up by).
 //@ extern github.com/mdzio/go-mqtt/topics.Register
-//@   modifies topics.providers
+//@   flag args name, provider
+//@   ensures[ghostdef-reg] gfield(0, "nreg") == old(gfield(0, "nreg"))+1 && gfield(0, "regname") == ref(name) && gfield(0, "regprov") == ifaceval(provider, *topics.MemTopics)
+//@   modifies topics.providers, gfield(0, "nreg"), gfield(0, "regname"), gfield(0, "regprov")
 //@ extern github.com/mdzio/go-mqtt/topics.NewManager
+//@   flag args providerName
 //@   results m, err
 //@   ensures err == nil ==> m != nil && m.p != nil
 //@   ensures err != nil ==> !typeis(err, message.ConnackCode)
@@ -1003,6 +1020,8 @@ func vspecCovered(x int64, start int64, c int64, size int64) bool {
 //@ func (*Client).Connect
 //@   results err
 //@   flag noframe
+//@   atcall github.com/mdzio/go-mqtt/topics.Register requires[C20:private-store] typeis(provider, *topics.MemTopics) && fresh(ifaceval(provider, *topics.MemTopics))
+//@   atcall github.com/mdzio/go-mqtt/topics.NewManager requires[C20:private-store] gfield(0, "nreg") == old(gfield(0, "nreg"))+1 && gfield(0, "regname") == ref(providerName)
 //@   requires 0 <= cln.ConnectTimeout && cln.ConnectTimeout <= 1000000 && (msg != nil ==> message.vdefConnSizes(msg) && len(msg.mtypeflags) == 1) && cln.BufferSize <= 549755813888 && heldnone()
 //@   ensures[C20:accepted] err == nil ==> gfield(0, "nconnackrx") == old(gfield(0, "nconnackrx"))+1 && gfield(0, "rxcode") == 0 && gfield(0, "nstarted") == old(gfield(0, "nstarted"))+1
 //@   ensures[C20:refused] gfield(0, "nconnackrx") == old(gfield(0, "nconnackrx"))+1 && gfield(0, "rxcode") != 0 ==> typeis(err, message.ConnackCode) && int(ifaceval(err, message.ConnackCode)) == gfield(0, "rxcode")
@@ -1014,6 +1033,8 @@ func vspecCovered(x int64, start int64, c int64, size int64) bool {
 //@ func (*Client).ConnectTLS
 //@   results err
 //@   flag noframe
+//@   atcall github.com/mdzio/go-mqtt/topics.Register requires[C20:private-store] typeis(provider, *topics.MemTopics) && fresh(ifaceval(provider, *topics.MemTopics))
+//@   atcall github.com/mdzio/go-mqtt/topics.NewManager requires[C20:private-store] gfield(0, "nreg") == old(gfield(0, "nreg"))+1 && gfield(0, "regname") == ref(providerName)
 //@   requires 0 <= cln.ConnectTimeout && cln.ConnectTimeout <= 1000000 && (msg != nil ==> message.vdefConnSizes(msg) && len(msg.mtypeflags) == 1) && cln.BufferSize <= 549755813888 && heldnone()
 //@   ensures[C20:accepted] err == nil ==> gfield(0, "nconnackrx") == old(gfield(0, "nconnackrx"))+1 && gfield(0, "rxcode") == 0 && gfield(0, "nstarted") == old(gfield(0, "nstarted"))+1
 //@   ensures[C20:refused] gfield(0, "nconnackrx") == old(gfield(0, "nconnackrx"))+1 && gfield(0, "rxcode") != 0 ==> typeis(err, message.ConnackCode) && int(ifaceval(err, message.ConnackCode)) == gfield(0, "rxcode")
@@ -1106,8 +1127,7 @@ func vspecCovered(x int64, start int64, c int64, size int64) bool {
 //@   ensures result == (n >= 1 && pow2(n))
 // 64-bit bit trick; its contract is assumed (QF_BV lemma in /verif/lemmas, hand-transcribed body)
 //@ func roundUpPowerOfTwo64
-//@   flag bodyhash 6d1b608ad621
-//@   trusted
+//@   flag arith bv64
 //@   pure
 //@   requires 1 <= n && n <= 4611686018427387904
 //@   ensures pow2(result) && result >= n && result < 2*n
